@@ -94,6 +94,10 @@ func gen(r *harn.Rng, tier string) interface{} {
 			sc.Ops = append(sc.Ops, op{K: "reorder", Dir: d})
 		case x < 89:
 			sc.Ops = append(sc.Ops, op{K: "filter", Dir: d, N: r.Pick(0, 1, 2)})
+		case x < 94:
+			// one Tick with both readers waiting: hands over the head of each non-empty queue
+			// (the queues are then partly delivered, which later Drop/Reorder calls must respect)
+			sc.Ops = append(sc.Ops, op{K: "tick1"})
 		default:
 			sc.Ops = append(sc.Ops, op{K: "process"})
 			qlen = [2]int{}
@@ -269,6 +273,25 @@ func runBridge(env *simrt.Env, sc *scenario) {
 				}
 				env.Probe("tick-without-reader")
 			}
+		case "tick1":
+			if sc.Lazy {
+				continue
+			}
+			env.Quiesce() // both readers wait in Read now
+			want := 0
+			for d := 0; d < 2; d++ {
+				if len(models[d].queue) > 0 {
+					want++
+					expect[1-d] = append(expect[1-d], models[d].queue[0])
+					models[d].queue = models[d].queue[1:]
+				}
+			}
+			if n := br.Tick(); n != want {
+				env.Fail("C18/bridge-tick-count", "op %d: Tick handed over %d message(s) with both readers waiting; %d of the two queues hold messages", i, n, want)
+				return
+			}
+			env.Quiesce()
+			env.Probe("single-tick")
 		case "process":
 			if sc.Lazy && readers[0] == nil {
 				continue // keep the queues untouched until the end of the script
